@@ -93,7 +93,7 @@ class Ctx:
         inst['sites'] = r.sites[:6]
         if r.detail:
             inst['detail'] = r.detail
-        if floor and len(r.sites) < floor and not any(v.key == 'anchor-missing' for v in r.violations):
+        if floor and len(r.sites) < floor and not r.violations:
             r.bad('below-floor', 'rule matched %d site(s), fewer than the %d confirmed when the rule was armed'
                   % (len(r.sites), floor))
         seen = set()
